@@ -25,14 +25,18 @@ type vOutbound struct {
 	want byte // its value
 }
 
-func vOutboundSetup(et bool) *vOutbound {
+func vOutboundSetup(et bool) *vOutbound { return vOutboundSetupX(et, true) }
+
+// anyShape=false: the outbound buffer is empty or holds one pending overflow segment (cheap pre-state for harnesses whose
+// subject is not the buffer's internal shape; the arbitrary shape is used in the thorough tier)
+func vOutboundSetupX(et bool, anyShape bool) *vOutbound {
 	chunk := 0
 	if et {
 		chunk = vNondetInt("chunk")
 		vAssume(1 <= chunk && chunk <= vMaxLen())
 	}
 	w := vNewWorld(et, chunk)
-	c := w.vOpenConn(vConnFD, "c", false, true)
+	c := w.vOpenConnX(vConnFD, "c", false, anyShape, !anyShape)
 	x := &vOutbound{w: w, c: c, lo: c.outboundBuffer.Buffered()}
 	// level-triggered invariant: write interest is armed exactly while output is pending
 	if !et && x.lo > 0 {
@@ -102,7 +106,7 @@ func VH_C02_Write() {
 
 // verif: mode=int unwind=6
 func VH_C02_Writev() {
-	x := vOutboundSetup(vNondetBool("et"))
+	x := vOutboundSetupX(vNondetBool("et"), vCfg("any_shape", 0) == 1)
 	segs := vPick("segs", vCfg("segs", 2)) + 1
 	var bs [][]byte
 	total := 0
@@ -171,7 +175,7 @@ func VH_C02_OpenReply() {
 //
 // verif: mode=int unwind=6
 func VH_C02_AsyncWriteOrder() {
-	x := vOutboundSetup(vNondetBool("et"))
+	x := vOutboundSetupX(vNondetBool("et"), vCfg("any_shape", 0) == 1)
 	n1 := vNondetInt("n1")
 	n2 := vNondetInt("n2")
 	vAssume(0 <= n1 && n1 <= vMaxLen() && 0 <= n2 && n2 <= vMaxLen())
